@@ -167,6 +167,9 @@ type scenario struct {
 	client   string // issuer of assertions / request objects
 	scenName string
 	valid    bool // build key set and token so that ONLY the allow-list can reject
+	// storeKid (profile key sets): the key ID the stored JWK carries ITSELF relative to
+	// the (client, kid) pair the storage hands it out for: same | none | alias
+	storeKid string
 }
 
 // publishedKeys builds a key list around the signer: the signer's key (mostly
@@ -341,6 +344,19 @@ func (g *gen) keySet(s *scenario, kind string) {
 	case "profile":
 		d := tok.KeySetDesc{Kind: "profile", Client: ""}
 		own := tok.StoreEntry{Client: s.client, Kid: s.kid, Key: tok.JWK{Kid: s.kid, Use: "sig", Key: s.signer}}
+		// The storage decides which key answers (client, kid of the header - possibly
+		// none); the key ID written INSIDE the JWK it returns is a dimension of its own:
+		// the same id, no id at all, or the key's own id (a storage that resolves a
+		// kid-less or aliased lookup to the client's key, which keeps its own name).
+		s.storeKid = "same"
+		switch r.IntN(6) {
+		case 0:
+			if s.kid != "" {
+				own.Key.Kid, s.storeKid = "", "none"
+			}
+		case 1, 2:
+			own.Key.Kid, s.storeKid = drv.Pick(r, []string{"key-1", "key-1", s.kid + "-2024", "K"}), "alias"
+		}
 		switch r.IntN(10) {
 		case 0:
 			s.scenName = "absent"
@@ -543,6 +559,20 @@ func (g *gen) checkSigCase() {
 		mut = drv.Pick(r, []string{"none", "none", "typ", "flat_same"})
 	} else if r.Chance(1, 20) {
 		mut = "general_kid_unprot_other"
+		// open finding Fxx-C02-1: the library does not see this kid at all. On ONE
+		// published list every resulting disagreement is a property violation with the
+		// finding's tags; with a second list (a filled cache) the unseen kid also changes
+		// WHETHER the key set downloads, which the property says nothing about - so the
+		// remote key set is presented cold here.
+		if s.ks.Kind == "remote" && len(s.ks.Cached) > 0 {
+			s.ks.Cached = nil
+			if i := strings.Index(s.scenName, "+"); i >= 0 {
+				s.scenName = s.scenName[:i]
+			}
+			if s.ks.ServedFail {
+				s.scenName += "+fetchfail"
+			}
+		}
 	}
 	t, m := g.buildToken(s, mut, c, evil, g.payloadOpts("ext"))
 	parsed := m.Bytes
@@ -571,6 +601,80 @@ func (g *gen) checkSigCase() {
 	g.w.Add(emit.Case{Input: tok.Share(in), Observed: obs,
 		Tags:  []string{"kind=checksig", "mut=" + mut, "ks=" + s.ksKind, "keys=" + s.scenName, "alg=" + s.alg, "parsed=" + ptag, "kidhdr=" + tagStr(s.kid), "allow=" + class, "payload_size=" + size},
 		Human: map[string]any{"token": t.Raw, "allowed": allowed, "mut": mut, "scenario": s.scenName}})
+}
+
+// profileSigCase: oidc.CheckSignature on the library's THIRD key set, the
+// per-client storage key set (op.jwtProfileKeySet: the storage is asked for the
+// key of (client, kid of the header)). The type is not exported; it is reached
+// through op.VerifyJWTAssertion on a storage-backed verifier whose SubjectCheck
+// admits anything, with claims (iss = the client, aud, exp, iat) that pass every
+// check made before the signature - what comes back is CheckSignature's answer
+// with the nil allow-list. The claims type records no algorithm, so an acceptance
+// is observed as Ok "". Key set scenarios as for the verifiers (present / absent /
+// other client / other kid / wrong key / shadowed; the stored JWK's own key id
+// same / none / alias), token mutations that keep the middle segment decodable.
+func (g *gen) profileSigCase() {
+	r := g.r
+	algPool := defAlgs
+	if r.Chance(1, 6) {
+		algPool = allAlgs
+	}
+	hs := r.Chance(1, 14)
+	if hs {
+		algPool = []string{"HS256", "HS384"}
+	}
+	s := g.pickSigner(algPool)
+	if hs && r.Bool() {
+		s.signer = g.pool.Keys[9]
+	}
+	s.client = drv.Pick(r, clientIDs)
+	g.keySet(s, "profile")
+	other := "client-b"
+	if s.client == other {
+		other = "client-a"
+	}
+	now := time.Now().Unix()
+	c := tok.Claims{Iss: s.client, Sub: s.client, Aud: []string{issuer}, Exp: now + 3600, Iat: now - 10}
+	evil := c
+	if r.Bool() {
+		evil.Sub = "attacker"
+	} else {
+		evil.Iss, evil.Sub = other, other // the smuggled payload names another client (its keys are then the ones asked for)
+	}
+	opts := tok.PayloadOpts{Reverse: r.Bool(), AudSingle: r.Bool(), Spaces: r.Chance(1, 10)}
+	var t tok.Token
+	var m tok.Middle
+	mut := ""
+	for try := 0; ; try++ {
+		mut = pickMutation(r, 55)
+		if try >= 8 {
+			mut = "none"
+		}
+		t, m = g.buildToken(s, mut, c, evil, opts)
+		if m.Kind == "ok" {
+			break
+		}
+	}
+	jv := op.NewJWTProfileVerifier(&tok.FakeStorage{Store: s.ks.Store}, issuer, 0, 0,
+		op.SubjectCheck(func(*oidc.JWTTokenRequest) error { return nil }))
+	var err error
+	ctx, cancel := context.WithTimeout(context.Background(), 5*time.Second)
+	p := drv.Catch(func() { _, err = op.VerifyJWTAssertion(ctx, t.Raw, jv) })
+	cancel()
+	obs := "OPanic"
+	if p == "" {
+		if err == nil {
+			obs = emit.Ctor("OSig", emit.Ctor("Ok", emit.Str("")))
+		} else {
+			obs = emit.Ctor("OSig", emit.Ctor("Err", tok.ClassifyErr(err)))
+		}
+	}
+	d := s.ks
+	d.Client = m.C.Iss // the key set is bound to the issuer of the decoded claims
+	in := emit.Ctor("IProfileSig", d.Coq(), t.Coq(), emit.Str(m.Bytes))
+	g.w.Add(emit.Case{Input: tok.Share(in), Observed: obs,
+		Tags:  []string{"kind=checksig", "mut=" + mut, "ks=profile", "keys=" + s.scenName, "alg=" + s.alg, "parsed=middle", "kidhdr=" + tagStr(s.kid), "allow=empty", "storekid=" + s.storeKid},
+		Human: map[string]any{"token": t.Raw, "mut": mut, "scenario": s.scenName, "client": m.C.Iss}})
 }
 
 // ---------------------------------------------------------------- the five verifiers
@@ -640,7 +744,9 @@ func (g *gen) verifyCase(kind string) {
 			}
 			ctor.Explicit = &l
 		}
-		other := func() []string { return g.allowList(drv.Pick(r, []string{"other_asym", "other_asym", "only_sym", "with_alg"}), s.alg) }
+		other := func() []string {
+			return g.allowList(drv.Pick(r, []string{"other_asym", "other_asym", "only_sym", "with_alg"}), s.alg)
+		}
 		switch r.IntN(6) {
 		case 0:
 			ctor.Announced = nil
@@ -668,6 +774,8 @@ func (g *gen) verifyCase(kind string) {
 		cm = 99 // claims stay valid: only the allow-list can reject
 	}
 	ext := fmt.Sprintf("x%d", r.IntN(100000))
+	roQuery := ""     // request objects: client_id of the authorization request the object is attached to
+	roBenign := false // ... and the token is mostly left intact (the identity binding is what is varied)
 	switch kind {
 	case "rp":
 		v.Offset = drv.Pick(r, []time.Duration{0, time.Second})
@@ -735,6 +843,7 @@ func (g *gen) verifyCase(kind string) {
 			c.Exp, claimMut = now-3600, "expired"
 		}
 	case "ro":
+		roQuery = s.client
 		c = tok.Claims{Iss: s.client, Aud: []string{issuer}, ClientID: s.client, RType: "code", Nonce: "n-" + ext, Extra: "s-" + ext}
 		opts.ExtraKey = "state"
 		opts.Scope = "openid email"
@@ -749,6 +858,40 @@ func (g *gen) verifyCase(kind string) {
 			c.Iss, claimMut = "someone-else", "iss"
 		case cm < 20:
 			c.Nonce, c.Extra, claimMut = "", "", "no_state"
+		case cm < 70:
+			// WHOSE request object is it: the client of the authorization request (query
+			// client_id), the client_id claim (present = query client / another registered
+			// client, or absent), the iss claim (query client / another registered client /
+			// absent) and the signer (the key registered for the query client or the one
+			// registered for the other client, under the same kid) vary independently.
+			other := "client-b"
+			if s.client == other {
+				other = "client-a"
+			}
+			o := g.pool.Other(r, s.signer, s.alg)
+			if o == nil {
+				break
+			}
+			s.ks.Store = append(s.ks.Store, tok.StoreEntry{Client: other, Kid: s.kid, Key: tok.JWK{Kid: s.kid, Use: "sig", Key: o}})
+			roBenign = true
+			switch r.IntN(10) {
+			case 0: // no client_id claim, own issuer, own key
+				c.ClientID, claimMut = "", "bind_cid_absent"
+			case 1, 2, 3: // no client_id claim, the OTHER client as issuer, signed with that client's key
+				c.ClientID, c.Iss, s.signer, claimMut = "", other, o, "bind_cid_absent_iss_other"
+			case 4: // client_id of the query, issuer the other client, its key
+				c.Iss, s.signer, claimMut = other, o, "bind_iss_other"
+			case 5: // the object is the other client's altogether
+				c.ClientID, c.Iss, s.signer, claimMut = other, other, o, "bind_all_other"
+			case 6: // neither client_id nor iss
+				c.ClientID, c.Iss, claimMut = "", "", "bind_both_absent"
+			case 7: // own claims, signed with the other client's key
+				s.signer, claimMut = o, "bind_other_signs"
+			case 8: // the authorization request is the OTHER client's; the object is genuinely s.client's
+				roQuery, claimMut = other, "bind_query_other"
+			default: // ... and carries no client_id claim
+				roQuery, c.ClientID, claimMut = other, "", "bind_query_other_cid_absent"
+			}
 		}
 	}
 	deleg := false
@@ -802,6 +945,8 @@ func (g *gen) verifyCase(kind string) {
 	mut := pickMutation(r, 62)
 	if s.valid {
 		mut = drv.Pick(r, []string{"none", "none", "typ", "flat_same"})
+	} else if roBenign && r.Chance(1, 2) {
+		mut = pickMutation(r, 100)
 	}
 	t, m := g.buildToken(s, mut, c, evil, opts)
 
@@ -867,7 +1012,7 @@ func (g *gen) verifyCase(kind string) {
 		t1 = time.Now().UnixNano()
 		obs = jwtOutcome(out, err)
 	case "ro":
-		ar := &oidc.AuthRequest{ClientID: s.client, ResponseType: "code", Nonce: "n0", State: "s0", Scopes: []string{"openid"}, RequestParam: t.Raw}
+		ar := &oidc.AuthRequest{ClientID: roQuery, ResponseType: "code", Nonce: "n0", State: "s0", Scopes: []string{"openid"}, RequestParam: t.Raw}
 		kindCoq = emit.Ctor("VRequestObject", emit.Ctor("mkAuthReq", emit.Str(ar.ClientID), emit.Str(string(ar.ResponseType)), emit.Str(ar.Nonce), emit.Str(ar.State)))
 		var err error
 		t0 = time.Now().UnixNano()
@@ -894,6 +1039,9 @@ func (g *gen) verifyCase(kind string) {
 	}
 	in := emit.Ctor("IVerify", kindCoq, v.Coq(), s.ks.Coq(), t.Coq(), m.Coq(), emit.Z(t0), emit.Z(t1))
 	tags := []string{"kind=verify", "v=" + kind, "mut=" + mut, "ks=" + s.ksKind, "keys=" + s.scenName, "alg=" + s.alg, "claims=" + claimMut, "kidhdr=" + tagStr(s.kid), "allow=" + class, "payload_size=" + size, "ctor=" + ctorTag}
+	if s.ksKind == "profile" {
+		tags = append(tags, "storekid="+s.storeKid)
+	}
 	if mut == "payload_null" {
 		tags = append(tags, "payload=nonobject")
 	}
@@ -1314,6 +1462,7 @@ func (g *gen) instanceSeqCase(kind string) {
 	}
 	var ks tok.KeySetDesc
 	ksKind := "profile"
+	storeKid := "same"
 	switch kind {
 	case "rp":
 		ksKind = "remote"
@@ -1333,7 +1482,20 @@ func (g *gen) instanceSeqCase(kind string) {
 	case "static":
 		ks = tok.KeySetDesc{Kind: "static", Static: j1}
 	default:
-		ks = tok.KeySetDesc{Kind: "profile", Store: []tok.StoreEntry{{Client: client, Kid: "k1", Key: j1}, {Client: client, Kid: "k2", Key: j2}}}
+		// the JWK the storage returns carries the id it is registered under, none, or
+		// its own; the storage may also answer a lookup WITHOUT key id with the first key
+		sj1 := j1
+		switch r.IntN(5) {
+		case 0:
+			sj1.Kid, storeKid = "", "none"
+		case 1:
+			sj1.Kid, storeKid = "key-1", "alias"
+		}
+		ks = tok.KeySetDesc{Kind: "profile", Store: []tok.StoreEntry{{Client: client, Kid: "k1", Key: sj1}, {Client: client, Kid: "k2", Key: j2}}}
+		if r.Chance(1, 3) {
+			ks.Store = append(ks.Store, tok.StoreEntry{Client: client, Kid: "", Key: sj1})
+			storeKid += "+kidless_lookup"
+		}
 		if key3 != nil && r.Chance(2, 3) { // the other client has its own key under the same kid
 			ks.Store = append(ks.Store, tok.StoreEntry{Client: other, Kid: "k1", Key: tok.JWK{Kid: "k1", Use: "sig", Key: key3}})
 		}
@@ -1352,7 +1514,7 @@ func (g *gen) instanceSeqCase(kind string) {
 	ext := fmt.Sprintf("q%d", r.IntN(100000))
 	opts := g.payloadOpts("ext")
 	// full, alternative ("the attacker's wish") and sparse claims, all acceptable as far as claims go
-	var c, c2, c3 tok.Claims
+	var c, c2, c3, c4 tok.Claims
 	switch kind {
 	case "rp":
 		v.Offset = drv.Pick(r, []time.Duration{0, time.Second})
@@ -1394,6 +1556,9 @@ func (g *gen) instanceSeqCase(kind string) {
 		c3 = tok.Claims{Iss: client, Aud: []string{issuer}, ClientID: client}
 		c2 = c
 		c2.Nonce, c2.Extra = "n-evil", "s-evil"
+		// the stranger is (mostly) the OTHER registered client: its object names itself
+		// as issuer, with its own client_id claim, the query's, or none
+		c4 = tok.Claims{Iss: other, Aud: []string{issuer}, ClientID: drv.Pick(r, []string{"", "", other, client}), RType: "code", Nonce: "n-other", Extra: "s-other"}
 	}
 	sign := func(key *tok.Key, alg, kid, mut string, cl tok.Claims, o tok.PayloadOpts) histTok {
 		t, m := tok.Build(r, tok.BuildSpec{Signer: key, Alg: alg, Kid: kid, Claims: cl, Payload: cl.Payload(o), Mut: mut})
@@ -1412,7 +1577,11 @@ func (g *gen) instanceSeqCase(kind string) {
 	}
 	known := len(fam)
 	if key3 != nil {
-		fam = append(fam, sign(key3, alg3, kid1, "none", c2, opts))
+		c5 := c2
+		if kind == "ro" && r.Chance(2, 3) {
+			c5 = c4
+		}
+		fam = append(fam, sign(key3, alg3, kid1, "none", c5, opts))
 	}
 
 	// the ONE instance
@@ -1474,7 +1643,7 @@ func (g *gen) instanceSeqCase(kind string) {
 		switch {
 		case x < 8: // a family member as it was signed (rarely the stranger's)
 			i := r.IntN(known)
-			if len(fam) > known && r.Chance(1, 6) {
+			if len(fam) > known && (r.Chance(1, 6) || (kind == "ro" && r.Chance(1, 4))) {
 				i = known
 			}
 			t, m, how = fam[i].t, fam[i].m, fmt.Sprintf("genuine%d", i)
@@ -1609,6 +1778,9 @@ func (g *gen) instanceSeqCase(kind string) {
 	tags := []string{"kind=instanceseq", "v=" + kind, "ks=" + ks.Kind, fmt.Sprintf("steps=%d", n), "alg=" + alg1, "alg2=" + alg2, fmt.Sprintf("kidless=%v", kidless), fmt.Sprintf("parallel=%v", parallel)}
 	if ks.Kind == "remote" {
 		tags = append(tags, fmt.Sprintf("warm=%v", len(ks.Cached) > 0))
+	}
+	if ks.Kind == "profile" {
+		tags = append(tags, "storekid="+storeKid)
 	}
 	seen := map[string]bool{}
 	for i, h := range hows {
@@ -2053,6 +2225,258 @@ func (g *gen) providerCase() {
 		Human: map[string]any{"token": t.Raw, "signer": who, "hint": hint}})
 }
 
+// providerSeqCase: ONE op.NewProvider (key-set / verifier options each absent or
+// present; one storage holding the signing keys and the registered client keys)
+// answers 2-4 calls in a row. For every call the verifier is the one the provider
+// hands out THEN for the call's kind: Provider.AccessTokenVerifier,
+// Provider.IDTokenHintVerifier (mostly alternating, so that a verifier of the other
+// kind - with its other key set / allow-list - was handed out before) or
+// Provider.JWTProfileVerifier. Assertion steps are made by principals
+// (client id, key id) two of which are cuts of ONE word at different places
+// (client+kid concatenate to the same string), a third unrelated one; each
+// registered under its own key; an assertion is signed by the principal's own key
+// or by the key of a principal this provider has served before - mostly under the
+// name of that principal's concatenation partner. Every answer is judged on its own.
+func (g *gen) providerSeqCase() {
+	r := g.r
+	alg := drv.Pick(r, []string{"RS256", "PS256", "ES256", "EdDSA", "RS384", "PS512"}) // families with two keys: the sets can differ
+	fam := g.pool.ForAlg(alg)
+	kid := drv.Pick(r, []string{"k1", "k1", ""})
+	keyS, keyAT, keyH := fam[0], fam[1%len(fam)], fam[r.IntN(len(fam))]
+	if r.Bool() {
+		keyS, keyAT = keyAT, keyS
+	}
+	storage := []tok.JWK{{Kid: kid, Use: "sig", Key: keyS}}
+	if r.Chance(1, 4) {
+		storage = append(storage, g.randomJWK(false))
+	}
+	var atKS, hintKS *tok.KeySetDesc
+	optPat := drv.Pick(r, []string{"none", "at", "at", "hint", "hint", "both", "both"})
+	custom := func(k *tok.Key) *tok.KeySetDesc {
+		d := g.customKeySet(k, kid)
+		if d.Kind == "remote" && r.Bool() { // steady endpoint, cache cold or warm: stateless as far as answers go
+			d.Cached = d.Served
+		}
+		return &d
+	}
+	if optPat == "at" || optPat == "both" {
+		atKS = custom(keyAT)
+	}
+	if optPat == "hint" || optPat == "both" {
+		hintKS = custom(keyH)
+	}
+	list := func() ([]string, string) {
+		class := g.allowClass()
+		if r.Chance(1, 2) {
+			class = "with_alg"
+		}
+		return g.allowList(class, alg), class
+	}
+	atAlgs, atClass := list()
+	hintAlgs, hintClass := list()
+	setAT, setHint := r.Chance(3, 4), r.Chance(3, 4)
+	if !setAT {
+		atAlgs, atClass = nil, "empty"
+	}
+	if !setHint {
+		hintAlgs, hintClass = nil, "empty"
+	}
+	issuer := drv.Pick(r, []string{issuer, issuer, issuer, "https://tenant-b.example.com"})
+
+	// principals of the assertion steps
+	type principal struct {
+		client, kid string
+		key         *tok.Key
+		alg         string
+		registered  bool
+	}
+	w := drv.Pick(r, []string{"svc2a", "app-10k1", "client-a1", "tenantAkey7"})
+	ci := 1 + r.IntN(len(w)-2)
+	cj := ci + 1 + r.IntN(len(w)-ci-1)
+	perm := r.Perm(4) // RSA0, RSA1, P256a, P256b: the key types of the default allow-list
+	mk := func(i int, client, kid string, reg bool) *principal {
+		k := g.pool.Keys[perm[i]]
+		a := "ES256"
+		if k.Kty == "KRsa" {
+			a = drv.Pick(r, []string{"RS256", "PS256"})
+		}
+		return &principal{client, kid, k, a, reg}
+	}
+	pX := mk(0, w[:cj], w[cj:], true)
+	pY := mk(1, w[:ci], w[ci:], r.Chance(2, 3))
+	pZ := mk(2, "client-a", "k1", true)
+	partner := map[*principal]*principal{pX: pY, pY: pX, pZ: pZ}
+	var store []tok.StoreEntry
+	for _, p := range []*principal{pZ, pX, pY} {
+		if p.registered {
+			store = append(store, tok.StoreEntry{Client: p.client, Kid: p.kid, Key: tok.JWK{Kid: p.kid, Use: "sig", Key: p.key}})
+		}
+	}
+	r.Shuffle(len(store), func(a, b int) { store[a], store[b] = store[b], store[a] })
+
+	var opts []op.Option
+	if atKS != nil {
+		opts = append(opts, op.WithAccessTokenKeySet(atKS.Build()))
+	}
+	if hintKS != nil {
+		opts = append(opts, op.WithIDTokenHintKeySet(hintKS.Build()))
+	}
+	if setAT {
+		opts = append(opts, op.WithAccessTokenVerifierOpts(op.WithSupportedAccessTokenSigningAlgorithms(atAlgs...)))
+	}
+	if setHint {
+		opts = append(opts, op.WithIDTokenHintVerifierOpts(op.WithSupportedIDTokenHintSigningAlgorithms(hintAlgs...)))
+	}
+	r.Shuffle(len(opts), func(i, j int) { opts[i], opts[j] = opts[j], opts[i] })
+	issFn := op.StaticIssuer(baseIssuer)
+	if issuer != baseIssuer {
+		issFn = op.IssuerFromHost("")
+	}
+	var prov *op.Provider
+	pan := drv.Catch(func() {
+		var err error
+		prov, err = op.NewProvider(&op.Config{CryptoKey: [32]byte{1}}, &tok.FakeStorage{Keys: storage, Store: store}, issFn, opts...)
+		if err != nil {
+			panic("NewProvider: " + err.Error())
+		}
+	})
+
+	seqType := drv.Pick(r, []string{"tokens", "tokens", "tokens", "assertions", "assertions", "mixed"})
+	n := 2 + r.IntN(3)
+	now := time.Now().Unix()
+	var steps, obs, hows []string
+	var served []*principal
+	amb := false
+	lastHint := r.Bool()
+	for st := 0; st < n && pan == ""; st++ {
+		kind := "jwt"
+		if seqType == "tokens" || (seqType == "mixed" && r.Bool()) {
+			// mostly the OTHER token verifier than the one handed out last
+			if st > 0 && r.Chance(3, 4) {
+				lastHint = !lastHint
+			} else {
+				lastHint = r.Bool()
+			}
+			kind = map[bool]string{true: "hint", false: "at"}[lastHint]
+		}
+		var t tok.Token
+		var m tok.Middle
+		var c tok.Claims
+		v := tok.VCfg{}
+		how := kind
+		if kind == "jwt" {
+			v = tok.VCfg{Offset: time.Second, MaxIAT: time.Hour}
+			claim := drv.Pick(r, []*principal{pX, pY, pZ, pX, pY})
+			signer := claim
+			switch x := r.IntN(10); {
+			case x < 4 && len(served) > 0: // the key of a principal served before ...
+				signer = drv.Pick(r, served)
+				claim = partner[signer] // ... under the name of its concatenation partner
+				if r.Chance(1, 3) {
+					claim = drv.Pick(r, []*principal{pX, pY, pZ})
+				}
+			case x < 5:
+				signer = drv.Pick(r, []*principal{pX, pY, pZ})
+			}
+			c = tok.Claims{Iss: claim.client, Sub: claim.client, Aud: []string{issuer}, Exp: now + 3600, Iat: now - 10}
+			if r.Chance(1, 12) {
+				c.Exp = now - 3600
+			}
+			t, m = tok.Build(r, tok.BuildSpec{Signer: signer.key, Alg: signer.alg, Kid: claim.kid, Claims: c, Payload: c.Payload(tok.PayloadOpts{Reverse: r.Bool()}), Mut: "none"})
+			how = fmt.Sprintf("jwt:%s/%s<-%s/%s", claim.client, claim.kid, signer.client, signer.kid)
+			served = append(served, claim)
+		} else {
+			who := drv.Pick(r, []string{"storage", "at", "hint", kind, map[string]string{"at": "hint", "hint": "at"}[kind]})
+			signer := map[string]*tok.Key{"storage": keyS, "at": keyAT, "hint": keyH}[who]
+			c = tok.Claims{Iss: issuer, Sub: "user-1", Aud: []string{"client-a"}, Azp: "client-a", Exp: now + 3600, Iat: now - 10, ClientID: "client-a", Extra: fmt.Sprintf("p%d", r.IntN(10000))}
+			switch x := r.IntN(20); {
+			case x < 2:
+				c.Exp = now - 3600
+			case x < 3:
+				c.Iss = "https://evil.example.com"
+			}
+			mut := "none"
+			if r.Chance(1, 10) {
+				mut = pickMutation(r, 30)
+			}
+			evil := c
+			evil.Sub = "attacker"
+			t, m = g.buildToken(&scenario{signer: signer, alg: alg, kid: kid}, mut, c, evil, g.payloadOpts("ext"))
+			how = kind + ":" + who
+		}
+		var o string
+		var t0, t1 int64
+		pan = drv.Catch(func() {
+			ctx, cancel := context.WithTimeout(op.ContextWithIssuer(context.Background(), issuer), 5*time.Second)
+			defer cancel()
+			switch kind {
+			case "hint":
+				vv := prov.IDTokenHintVerifier(ctx)
+				t0 = time.Now().UnixNano()
+				out, err := op.VerifyIDTokenHint[*oidc.IDTokenClaims](ctx, t.Raw, vv)
+				t1 = time.Now().UnixNano()
+				o = idOutcome(out, err)
+			case "at":
+				vv := prov.AccessTokenVerifier(ctx)
+				t0 = time.Now().UnixNano()
+				out, err := op.VerifyAccessToken[*oidc.AccessTokenClaims](ctx, t.Raw, vv)
+				t1 = time.Now().UnixNano()
+				if out != nil {
+					cl, a := tok.FromAccessToken(out)
+					o = tok.Outcome(&cl, a, err)
+				} else {
+					o = tok.Outcome(nil, "", err)
+				}
+			default:
+				vv := prov.JWTProfileVerifier(ctx)
+				t0 = time.Now().UnixNano()
+				out, err := op.VerifyJWTAssertion(ctx, t.Raw, vv)
+				t1 = time.Now().UnixNano()
+				o = jwtOutcome(out, err)
+			}
+		})
+		if pan != "" {
+			break
+		}
+		mc := c
+		if m.Kind == "ok" {
+			mc = m.C
+		}
+		if tok.TimeView(v, mc, t0) != tok.TimeView(v, mc, t1) {
+			amb = true
+		}
+		obs = append(obs, o)
+		steps = append(steps, emit.Ctor("mkPStep", map[string]string{"at": "PAccess", "hint": "PHint", "jwt": "PAssertion"}[kind], t.Coq(), m.Coq(), emit.Z(t0), emit.Z(t1)))
+		hows = append(hows, how)
+	}
+	if amb {
+		g.amb++
+		return
+	}
+	o := emit.Ctor("OVerifySeq", emit.List(obs))
+	if pan != "" {
+		o = "OPanic"
+	}
+	optKS := func(d *tok.KeySetDesc) string {
+		if d == nil {
+			return emit.None
+		}
+		return emit.Some(d.Coq())
+	}
+	st := make([]string, len(store))
+	for i, e := range store {
+		st[i] = emit.Pair(emit.Pair(emit.Str(e.Client), emit.Str(e.Kid)), e.Key.Coq())
+	}
+	in := emit.Ctor("IProviderSeq",
+		emit.Ctor("mkProvider", emit.Str(issuer), emit.Some(tok.JWKList(storage)), optKS(atKS), optKS(hintKS), emit.StrList(atAlgs), emit.StrList(hintAlgs)),
+		emit.List(st), emit.List(steps))
+	g.w.Add(emit.Case{Input: tok.Share(in), Observed: o,
+		Tags: []string{"kind=providerseq", "seq=" + seqType, fmt.Sprintf("steps=%d", n), fmt.Sprintf("opt_at_keyset=%v", atKS != nil), fmt.Sprintf("opt_hint_keyset=%v", hintKS != nil),
+			fmt.Sprintf("opt_at_opts=%v", setAT), fmt.Sprintf("opt_hint_opts=%v", setHint), fmt.Sprintf("dynamic_issuer=%v", issuer != baseIssuer), "allow_at=" + atClass, "allow_hint=" + hintClass, "alg=" + alg,
+			fmt.Sprintf("partner_registered=%v", pY.registered)},
+		Human: map[string]any{"steps": hows}})
+}
+
 // payloadOpts draws a byte form for the claims: member order, single-string aud,
 // whitespace between members and around the object, a shadowed duplicate member,
 // unicode escapes. All decode to the same claims.
@@ -2107,8 +2531,10 @@ func main() {
 			g.remoteSeqCase()
 		case 9:
 			g.verifySeqCase()
-		case 10, 11:
+		case 10:
 			g.providerCase()
+		case 11:
+			g.providerSeqCase()
 		case 12, 13:
 			g.instanceSeqCase(seqKinds[(i/16+3*(i%16-12))%len(seqKinds)])
 		case 14:
@@ -2118,9 +2544,12 @@ func main() {
 		default:
 			g.verifyCase(kinds[i%16-3])
 		}
+		if i%16 == 2 {
+			g.profileSigCase()
+		}
 	}
 	err := g.w.Close(emit.Meta{Property: "C02", Tier: cfg.Tier, Seed: cfg.Seed,
-		Rule:  "per 15 cases: 1 multi-tenant provider (per-request issuer, issuer-dependent Storage.KeySet, default key set) with 2-3 verifications, the first mostly held inside Storage.KeySet while the others run (tokens genuine / signed with another tenant's key / of another tenant); the caller's key slice is compared before and after FindMatchingKey; half of the remote key set sequences and 2/5 of the instance sequences on published key sets use mixed key families with twins and kid-less tokens; 1/3 of the instance sequences run their calls in parallel; 1 oidc.FindMatchingKey on random key lists built around the query (near-miss kid / use); 2 oidc.CheckSignature and 5 the five public verifiers (rp.VerifyIDToken, op.VerifyAccessToken, op.VerifyIDTokenHint, op.VerifyJWTAssertion with the default SubjectIsIssuer or a SubjectCheck admitting delegation, storage-backed or with a caller's key set, op.ParseRequestObject) on a really signed token (algorithm sweep RS/PS/ES/EdDSA/HS; 1/12 with a payload beyond 1 KiB / 4 KiB) with one mutation of the catalogue (about half benign, payload smuggling twice as often) against library key sets (op.OpenIDKeySet, rp remote key set incl. warm/stale cache, jwtProfileKeySet storage, static) built around the signer's key with distractors, near-miss kid / use, kid-less twins; 1 sequence of 3-5 oidc.CheckSignature calls on ONE remote key set while the provider rotates / adds / withdraws keys or is unreachable (tokens signed by current, withdrawn or foreign keys, 9/20 of the later tokens DERIVED from earlier ones by exchanging one of header / payload / signature or replayed; the number of successful downloads is observed); 1 sequence of 2-4 assertions of different issuers on ONE JWTProfileVerifier (own key / key of a client served before / delegation); 2 sequences of 2-4 tokens on ONE instance of each verifier kind and its one key set (genuinely signed family: two signers, full / alternative / sparse claims, stranger; members as signed or with exactly one of header / payload / signature from another member, random order); 2 op.NewProvider option patterns (key set options none / one / both, verifier options, static or per-request issuer) with a token signed by a key of the storage / access-token / hint set. Non-trivial = model path class != 0 (anything but an empty key list / ParseToken reject); distinct = distinct input term.",
+		Rule:  "round 11: per 16 cases 1 extra oidc.CheckSignature on the per-client storage key set (reached through op.VerifyJWTAssertion; stored JWK's own key id same / none / alias) and 1 sequence of 2-4 access-token / id_token_hint / JWT-profile verifications on ONE provider (alternating verifier kinds with differing key sets / allow-lists; assertion principals whose client id + key id concatenate to the same string) in place of one of the two single provider cases; half of the request-object cases vary whose object it is (query client x client_id claim x iss x signer). per 15 cases: 1 multi-tenant provider (per-request issuer, issuer-dependent Storage.KeySet, default key set) with 2-3 verifications, the first mostly held inside Storage.KeySet while the others run (tokens genuine / signed with another tenant's key / of another tenant); the caller's key slice is compared before and after FindMatchingKey; half of the remote key set sequences and 2/5 of the instance sequences on published key sets use mixed key families with twins and kid-less tokens; 1/3 of the instance sequences run their calls in parallel; 1 oidc.FindMatchingKey on random key lists built around the query (near-miss kid / use); 2 oidc.CheckSignature and 5 the five public verifiers (rp.VerifyIDToken, op.VerifyAccessToken, op.VerifyIDTokenHint, op.VerifyJWTAssertion with the default SubjectIsIssuer or a SubjectCheck admitting delegation, storage-backed or with a caller's key set, op.ParseRequestObject) on a really signed token (algorithm sweep RS/PS/ES/EdDSA/HS; 1/12 with a payload beyond 1 KiB / 4 KiB) with one mutation of the catalogue (about half benign, payload smuggling twice as often) against library key sets (op.OpenIDKeySet, rp remote key set incl. warm/stale cache, jwtProfileKeySet storage, static) built around the signer's key with distractors, near-miss kid / use, kid-less twins; 1 sequence of 3-5 oidc.CheckSignature calls on ONE remote key set while the provider rotates / adds / withdraws keys or is unreachable (tokens signed by current, withdrawn or foreign keys, 9/20 of the later tokens DERIVED from earlier ones by exchanging one of header / payload / signature or replayed; the number of successful downloads is observed); 1 sequence of 2-4 assertions of different issuers on ONE JWTProfileVerifier (own key / key of a client served before / delegation); 2 sequences of 2-4 tokens on ONE instance of each verifier kind and its one key set (genuinely signed family: two signers, full / alternative / sparse claims, stranger; members as signed or with exactly one of header / payload / signature from another member, random order); 2 op.NewProvider option patterns (key set options none / one / both, verifier options, static or per-request issuer) with a token signed by a key of the storage / access-token / hint set. Non-trivial = model path class != 0 (anything but an empty key list / ParseToken reject); distinct = distinct input term.",
 		Extra: map[string]any{"clock_ambiguous": g.amb}})
 	if err != nil {
 		fmt.Fprintln(os.Stderr, err)
